@@ -470,6 +470,90 @@ func (c *c11Env) allocCase(optInSecond bool, fee int64, tags []string) {
 	c.w.Count("kind=alloc")
 }
 
+// ---- a pending undelegation reached by several slashes, then its maturity ------------------------------------------
+
+func (c *c11Env) slashUndelCase(native bool, fracs []sdkmath.LegacyDec, powers []int64, tags []string) {
+	app := c.env.App
+	cx := mustCache(c.env.Ctx)
+	h0 := cx.BlockHeight()
+	op := c.opX
+	avsAddr := avstypes.GenerateAVSAddr(avstypes.ChainIDWithoutRevision(c.env.ChainID))
+	var dp *delegationtypes.DelegationOrUndelegationParams
+	var total, und sdkmath.Int
+	if native {
+		st := sdk.AccAddress(c.env.AccAddrs[1].Bytes())
+		total, und = sdkmath.NewIntWithDecimal(2, 18), sdkmath.NewIntWithDecimal(1, 18)
+		dp = &delegationtypes.DelegationOrUndelegationParams{ClientChainID: assetstypes.ExocoreChainLzID, AssetsAddress: common.HexToAddress(assetstypes.ExocoreAssetAddr).Bytes(),
+			StakerAddress: st, OperatorAddress: op, OpAmount: total, LzNonce: 700000 + uint64(c.n), TxHash: common.BytesToHash(seedBytes("c11su", c.n))}
+	} else {
+		st := c.stakerAddr(80)
+		asset := common.HexToAddress(c.env.AssetAddr).Bytes()
+		total, und = sdkmath.NewInt(2_000_000), sdkmath.NewInt(int64(500_000+c.rng.Intn(1_000_000)))
+		c11Must(app.AssetsKeeper.PerformDepositOrWithdraw(cx, &assetskeeper.DepositWithdrawParams{ClientChainLzID: 101, Action: assetstypes.DepositLST, AssetsAddress: asset, StakerAddress: st, OpAmount: total}), "deposit")
+		dp = &delegationtypes.DelegationOrUndelegationParams{ClientChainID: 101, AssetsAddress: asset, StakerAddress: st, OperatorAddress: op, OpAmount: total,
+			LzNonce: 700000 + uint64(c.n), TxHash: common.BytesToHash(seedBytes("c11su", c.n))}
+	}
+	stakerID, assetID := assetstypes.GetStakerIDAndAssetID(dp.ClientChainID, dp.StakerAddress, dp.AssetsAddress)
+	if cls := c11Class(func() error { return app.DelegationKeeper.DelegateTo(cx, dp) }); cls != "ROk" {
+		c.w.Count("slashundel.setup_delegate=" + cls)
+		return
+	}
+	cx1 := cx.WithBlockHeight(h0 + 1)
+	dp.OpAmount = und
+	if cls := c11Class(func() error { return app.DelegationKeeper.UndelegateFrom(cx1, dp) }); cls != "ROk" {
+		c.w.Count("slashundel.setup_undelegate=" + cls)
+		return
+	}
+	recs, err := app.DelegationKeeper.GetStakerUndelegationRecords(cx1, stakerID, assetID)
+	if err != nil || len(recs) == 0 {
+		return
+	}
+	rec := recs[len(recs)-1]
+	cx2 := cx.WithBlockHeight(h0 + 2)
+	contract, _ := app.AVSManagerKeeper.GetAVSSlashContract(cx2, avsAddr)
+	var props, actuals []string
+	var propsJ, actualsJ []string
+	for i, f := range fracs {
+		id := fmt.Sprintf("0x%x_0x%x", i+1, 0x5000+c.n)
+		param := &operatortypes.SlashInputInfo{IsDogFood: true, Power: powers[i], SlashType: uint32(i + 1), Operator: op, AVSAddr: avsAddr,
+			SlashContract: contract, SlashID: id, SlashEventHeight: h0, SlashProportion: f}
+		if cls := c11Class(func() error { return app.OperatorKeeper.Slash(cx2, param) }); cls != "ROk" {
+			c.w.Count("slashundel.slash=" + cls)
+			continue
+		}
+		info, err := app.OperatorKeeper.GetOperatorSlashInfo(cx2, avsAddr, op.String(), id)
+		if err != nil || info.ExecutionInfo == nil {
+			continue
+		}
+		rr, err := app.DelegationKeeper.GetStakerUndelegationRecords(cx2, stakerID, assetID)
+		if err != nil || len(rr) == 0 {
+			continue
+		}
+		cur := rr[len(rr)-1]
+		props = append(props, cZbig(info.ExecutionInfo.SlashProportion.BigInt()))
+		actuals = append(actuals, cZbig(cur.ActualCompletedAmount.BigInt()))
+		propsJ = append(propsJ, info.ExecutionInfo.SlashProportion.String())
+		actualsJ = append(actualsJ, cur.ActualCompletedAmount.String())
+	}
+	hctx := cx.WithBlockHeight(int64(rec.CompleteBlockNumber))
+	key := delegationtypes.GetUndelegationRecordKey(rec.BlockNumber, rec.LzTxNonce, rec.TxHash, rec.OperatorAddr)
+	for app.DelegationKeeper.GetUndelegationHoldCount(hctx, key) > 0 {
+		if err := app.DelegationKeeper.DecrementUndelegationHoldCount(hctx, key); err != nil {
+			break
+		}
+	}
+	obs := c11Class(func() error {
+		app.DelegationKeeper.EndBlock(hctx, abci.RequestEndBlock{Height: hctx.BlockHeight()})
+		return nil
+	})
+	left, _ := app.DelegationKeeper.GetStakerUndelegationRecords(hctx, stakerID, assetID)
+	c.emit(cApp("PSlashUndel", cBool(native), cZbig(rec.Amount.BigInt()), cList(props), cList(actuals)), obs, true,
+		map[string]interface{}{"kind": "slashed-pending-undelegation", "native": native, "amount": rec.Amount.String(), "proportions": propsJ,
+			"completable_after_each_slash": actualsJ, "records_left_after_maturity": len(left)}, tags)
+	c.w.Count("kind=slash-undel")
+	c.w.Count(fmt.Sprintf("slashundel.slashes=%d", len(props)))
+}
+
 // ---- voting power with extreme amounts ----------------------------------------------------------------------------
 
 func (c *c11Env) votingPowerCase(bits uint, tags []string) {
@@ -658,6 +742,10 @@ func runC11(a *Args) error {
 		AssetBasicInfo:     assetstypes.AssetInfo{Name: "Native Restaking ETH", Symbol: "NSTETH", Address: hexutil.Encode(c.nstAddr), Decimals: 18, LayerZeroChainID: 101, MetaInfo: "nst"},
 		StakingTotalAmount: sdkmath.NewInt(0)}), "nst asset")
 	_, c.nstAsset = assetstypes.GetStakerIDAndAssetID(101, nil, c.nstAddr)
+	// the native token as a staking asset (native restaking priced by the default price)
+	c11Must(app.AssetsKeeper.SetStakingAssetInfo(ctx, &assetstypes.StakingAssetInfo{
+		AssetBasicInfo:     assetstypes.AssetInfo{Name: "Exocore native token", Symbol: "EXO", Address: assetstypes.ExocoreAssetAddr, Decimals: 18, LayerZeroChainID: assetstypes.ExocoreChainLzID},
+		StakingTotalAmount: sdkmath.NewInt(0)}), "native asset")
 	// an operator without any opt-in
 	_, xa := DetEthKey("c11opx", 0)
 	c.opX = sdk.AccAddress(xa.Bytes())
@@ -781,6 +869,13 @@ func runC11(a *Args) error {
 	c.allocCase(false, 1_000_000, nil)
 	c.allocCase(true, 0, nil)
 	c.delegEndCase(nil)
+	// (4b) two / three slashes reaching the same pending undelegation (cumulative proportion above 100 %), then maturity:
+	//      native token (EndBlock builds a coin from the completable amount) and LST
+	d6, d857 := sdkmath.LegacyNewDecWithPrec(6, 1), sdkmath.LegacyNewDecWithPrec(857, 3)
+	c.slashUndelCase(true, []sdkmath.LegacyDec{d6, d857}, []int64{2, 2}, nil)
+	c.slashUndelCase(false, []sdkmath.LegacyDec{d6, d857}, []int64{2, 2}, nil)
+	c.slashUndelCase(true, []sdkmath.LegacyDec{d6, d6, d6}, []int64{1, 2, 3}, nil)
+	c.slashUndelCase(false, []sdkmath.LegacyDec{sdkmath.LegacyOneDec(), d6}, []int64{5, 1}, nil)
 	// (5) extreme amounts: deposit 2^130 of the asset, delegate, operator epoch hook (known finding, not repaired)
 	c.votingPowerCase(130, []string{"kf-C11-extreme-amount-overflow"})
 	c.votingPowerCase(100, nil)
@@ -815,17 +910,26 @@ func runC11(a *Args) error {
 				c.nstWithdraw(cx, last, 0)
 				c.nstCase(cx, raw, 20, nil, "same bitmap after shrink")
 			}
-		case k < 72:
+		case k < 70:
 			slashSeq++
 			op := []sdk.AccAddress{c.opX, env.Operators[0], env.Operators[1]}[rng.Intn(3)]
 			c.slashCase(mustCache(env.Ctx), op, fmt.Sprintf("0x1_0xb%x", slashSeq), nil, "random operator")
-		case k < 82:
+		case k < 77:
 			n := 1 + rng.Intn(2)
 			kinds := make([]int, n)
 			for i := range kinds {
 				kinds[i] = rng.Intn(3)
 			}
 			c.avsCase(kinds, rng.Intn(4) == 0, rng.Intn(4) == 0, nil)
+		case k < 80:
+			ns := 1 + rng.Intn(3)
+			fr := make([]sdkmath.LegacyDec, ns)
+			pw := make([]int64, ns)
+			for i := range fr {
+				fr[i] = []sdkmath.LegacyDec{sdkmath.LegacyNewDecWithPrec(5, 2), sdkmath.LegacyNewDecWithPrec(3, 1), sdkmath.LegacyNewDecWithPrec(6, 1), sdkmath.LegacyNewDecWithPrec(857, 3), sdkmath.LegacyOneDec()}[rng.Intn(5)]
+				pw[i] = int64(1 + rng.Intn(4))
+			}
+			c.slashUndelCase(rng.Intn(2) == 0, fr, pw, nil)
 		case k < 84:
 			c.delegEndCase(nil)
 		case k < 86:
